@@ -186,3 +186,8 @@ Example wrapped_is_supported_layout :
   /\ supported_layoutb P_names 2 "Select" ["e"] [wrap_g1] wrap_g2 [] wrap_tail = true
   /\ seg_start wrap_g2 (List.length (flat_map seg_toks [wrap_g1])) = 17.
 Proof. vm_compute. repeat split. Qed.
+
+(* the hypotheses of finder_total are met by a real stream and the stand-in parser *)
+Example total_hypotheses_met :
+  forallb no_err_toks [wrap_s0; wrap_s1] = true /\ (forall x, exists a, P_names x = PArgs a).
+Proof. split; [vm_compute; reflexivity | intros x; eexists; reflexivity]. Qed.
